@@ -348,4 +348,246 @@ theorem deleteRangeLoop_spec (end_ : Bytes) :
         simp only [Option.some.injEq, Prod.mk.injEq] at h
         rw [← h.1]; exact stop start m hc
 
+/-! ## checksum -/
+
+theorem Checksum.add_assoc (a b c : Checksum) : (a.add b).add c = a.add (b.add c) := by
+  simp [Checksum.add, UInt64.xor_assoc, Nat.add_assoc]
+
+theorem Checksum.add_zero (a : Checksum) : a.add Checksum.zero = a := by
+  cases a; simp [Checksum.add, Checksum.zero]
+
+theorem Checksum.zero_add (a : Checksum) : Checksum.zero.add a = a := by
+  cases a; simp [Checksum.add, Checksum.zero]
+
+theorem foldl_cs (l : List KV) (init : Checksum) :
+    l.foldl (fun c p => c.add (csOne p)) init = init.add (csOf l) := by
+  unfold csOf
+  induction l generalizing init with
+  | nil => simp [Checksum.add_zero]
+  | cons p t ih =>
+    simp only [List.foldl_cons]
+    rw [ih, ih (Checksum.zero.add (csOne p)), Checksum.zero_add, Checksum.add_assoc]
+
+theorem csOf_append (A B : List KV) : csOf (A ++ B) = (csOf A).add (csOf B) := by
+  unfold csOf
+  rw [List.foldl_append, foldl_cs]
+  rfl
+
+theorem checksumLoop_spec (m : Store) (hs : m.Sorted) (end_ : Bytes) :
+    ∀ (sc : SScript) (start : Bytes) (acc : Checksum) (tr : STrace) (res : Checksum) (tr' : STrace),
+      checksumLoop m end_ sc start acc tr = some (res, tr') →
+      res = acc.add (csOf (m.range start (toBound end_))) := by
+  have stop : ∀ (start : Bytes) (acc : Checksum), ¬ (fwdCond start end_ = true) →
+      acc = acc.add (csOf (m.range start (toBound end_))) := by
+    intro start acc h
+    have : fwdCond start end_ = false := by
+      cases hc : fwdCond start end_
+      · rfl
+      · exact absurd hc h
+    rw [range_nil_of_not_fwd m start end_ this]
+    simp [csOf, Checksum.add_zero]
+  intro sc
+  induction sc with
+  | nil =>
+    intro start acc tr res tr' h
+    simp only [checksumLoop] at h
+    split at h
+    · simp at h
+    · rename_i hc
+      simp only [Option.some.injEq, Prod.mk.injEq] at h
+      rw [← h.1]; exact stop start acc hc
+  | cons e rest ih =>
+    intro start acc tr res tr' h
+    cases e with
+    | none =>
+      simp only [checksumLoop] at h
+      split at h
+      · exact ih _ _ _ _ _ h
+      · rename_i hc
+        simp only [Option.some.injEq, Prod.mk.injEq] at h
+        rw [← h.1]; exact stop start acc hc
+    | some L =>
+      simp only [checksumLoop] at h
+      split at h
+      · rename_i hc
+        obtain ⟨hl1, hl2⟩ := locate_spec L start
+        have hstep := range_step m hs start (toBound end_) (locate L start) hl1 hl2
+        split at h
+        · rename_i he
+          simp only [Option.some.injEq, Prod.mk.injEq] at h
+          rw [← h.1]
+          simp only [he, if_true, List.append_nil] at hstep
+          simp only [regionChecksum, hstep]
+        · rename_i he
+          have := ih _ _ _ _ _ h
+          rw [this]
+          simp only [he, if_false] at hstep
+          rw [hstep, csOf_append, Checksum.add_assoc]
+          rfl
+      · rename_i hc
+        simp only [Option.some.injEq, Prod.mk.injEq] at h
+        rw [← h.1]; exact stop start acc hc
+
+/-! ## single-key calls -/
+
+theorem regionGet_eq (m : Store) (R : Region) (k : Bytes) :
+    regionGet m R k = if inRegion R k then m.get k else none := by
+  unfold regionGet restrict
+  rw [OMap.get_filterKeys]
+
+/-! ## batches: generic effect of `sendBatch` for every script -/
+
+abbrev View := Store × List KV
+def view (s : BState) : View := (s.store, s.pairs)
+def keysOf (items : List Item) : List Bytes := items.map (·.1)
+
+structure Eff (P : View → List Bytes → View → Prop) : Prop where
+  refl : ∀ v, P v [] v
+  trans : ∀ v A v1 B v2, P v A v1 → P v1 B v2 → P v (A ++ B) v2
+  congr : ∀ v A B v', (∀ k, k ∈ A ↔ k ∈ B) → P v A v' → P v B v'
+
+structure MkSpec (mk : Layout → List Item → List (Region × List Item)) : Prop where
+  sound : ∀ G items R b, (R, b) ∈ mk G items → ∀ it ∈ b, it ∈ items ∧ inRegion R it.1 = true
+  complete : ∀ G items it, it ∈ items → ∃ R b, (R, b) ∈ mk G items ∧ it ∈ b
+
+theorem runBatches_spec {P : View → List Bytes → View → Prop} (hP : Eff P) (V : Item → Prop)
+    (recur : BState → List Item → BScript → Option (BState × BScript))
+    (exec : BState → Region → List Item → BState)
+    (hexec : ∀ s R b, (∀ it ∈ b, V it ∧ inRegion R it.1 = true) → P (view s) (keysOf b) (view (exec s R b)))
+    (hrec : ∀ s b sc s' sc', recur s b sc = some (s', sc') → (∀ it ∈ b, V it) → P (view s) (keysOf b) (view s')) :
+    ∀ (bs : List (Region × List Item)) (s : BState) (outs : List Bool) (sc : BScript) (s' : BState) (sc' : BScript),
+      runBatches recur exec s bs outs sc = some (s', sc') →
+      (∀ Rb ∈ bs, ∀ it ∈ Rb.2, V it ∧ inRegion Rb.1 it.1 = true) →
+      P (view s) (bs.flatMap (fun Rb => keysOf Rb.2)) (view s') := by
+  intro bs
+  induction bs with
+  | nil =>
+    intro s outs sc s' sc' h _
+    cases outs with
+    | nil =>
+      simp only [runBatches, Option.some.injEq, Prod.mk.injEq] at h
+      rw [← h.1]; exact hP.refl _
+    | cons o os => simp [runBatches] at h
+  | cons Rb bs ih =>
+    intro s outs sc s' sc' h hv
+    obtain ⟨R, b⟩ := Rb
+    have hvb := hv (R, b) (List.mem_cons_self ..)
+    have hvt : ∀ Rb ∈ bs, ∀ it ∈ Rb.2, V it ∧ inRegion Rb.1 it.1 = true :=
+      fun Rb hRb => hv Rb (List.mem_cons_of_mem _ hRb)
+    simp only [List.flatMap_cons]
+    cases outs with
+    | nil => simp [runBatches] at h
+    | cons o os =>
+      cases o with
+      | true =>
+        simp only [runBatches] at h
+        have h1 := hexec s R b hvb
+        have h2 := ih _ _ _ _ _ h hvt
+        exact hP.trans _ _ _ _ _ h1 h2
+      | false =>
+        simp only [runBatches] at h
+        split at h
+        · simp at h
+        · rename_i s1 sc1 hr
+          have h1 := hrec _ _ _ _ _ hr (fun it hit => (hvb it hit).1)
+          have h2 := ih _ _ _ _ _ h hvt
+          exact hP.trans _ _ _ _ _ h1 h2
+
+theorem sendBatch_spec {P : View → List Bytes → View → Prop} (hP : Eff P) (V : Item → Prop)
+    (mk : Layout → List Item → List (Region × List Item)) (prep : List Item → List Item)
+    (exec : BState → Region → List Item → BState) (hmk : MkSpec mk)
+    (hprepV : ∀ items, (∀ it ∈ items, V it) → ∀ it ∈ prep items, V it)
+    (hprepK : ∀ items k, k ∈ keysOf (prep items) ↔ k ∈ keysOf items)
+    (hexec : ∀ s R b, (∀ it ∈ b, V it ∧ inRegion R it.1 = true) → P (view s) (keysOf b) (view (exec s R b))) :
+    ∀ (fuel : Nat) (s : BState) (items : List Item) (sc : BScript) (s' : BState) (sc' : BScript),
+      sendBatch mk prep exec fuel s items sc = some (s', sc') → (∀ it ∈ prep items, V it) →
+      P (view s) (keysOf items) (view s') := by
+  intro fuel
+  induction fuel with
+  | zero => intro s items sc s' sc' h; simp [sendBatch] at h
+  | succ fuel ih =>
+    intro s items sc s' sc' h hV
+    cases sc with
+    | nil => simp [sendBatch] at h
+    | cons e sc =>
+      simp only [sendBatch] at h
+      have hrec : ∀ s b sc s' sc', sendBatch mk prep exec fuel s b sc = some (s', sc') → (∀ it ∈ b, V it) →
+          P (view s) (keysOf b) (view s') := fun s b sc s' sc' hh hb => ih s b sc s' sc' hh (hprepV b hb)
+      have hv : ∀ Rb ∈ mk e.layout (prep items), ∀ it ∈ Rb.2, V it ∧ inRegion Rb.1 it.1 = true := by
+        intro Rb hRb it hit
+        obtain ⟨R, b⟩ := Rb
+        have := hmk.sound _ _ _ _ hRb it hit
+        exact ⟨hV it this.1, this.2⟩
+      have := runBatches_spec hP V _ exec hexec hrec _ _ _ _ _ _ h hv
+      refine hP.congr _ _ _ _ ?_ this
+      intro k
+      rw [← hprepK items k]
+      simp only [keysOf, List.mem_flatMap, List.mem_map]
+      constructor
+      · rintro ⟨Rb, hRb, it, hit, rfl⟩
+        obtain ⟨R, b⟩ := Rb
+        exact ⟨it, (hmk.sound _ _ _ _ hRb it hit).1, rfl⟩
+      · rintro ⟨it, hit, rfl⟩
+        obtain ⟨R, b, hRb, hib⟩ := hmk.complete e.layout _ it hit
+        exact ⟨(R, b), hRb, it, hib, rfl⟩
+
+/-! ### the two batch builders partition the items and keep every item inside its batch's region -/
+
+theorem keyBatches_flatten (limit : Nat) (items cur : List Item) :
+    (keyBatches limit items cur).flatten = cur ++ items := by
+  induction items generalizing cur with
+  | nil =>
+    simp only [keyBatches]
+    split
+    · rename_i h; simp [List.isEmpty_iff.mp h]
+    · simp
+  | cons it rest ih =>
+    simp only [keyBatches]
+    split
+    · simp [ih]
+    · simp [ih]
+
+theorem putBatches_flatten (limit : Nat) (items cur : List Item) (size : Nat) :
+    (putBatches limit items cur size).flatten = cur ++ items := by
+  induction items generalizing cur size with
+  | nil =>
+    simp only [putBatches]
+    split
+    · rename_i h; simp [List.isEmpty_iff.mp h]
+    · simp
+  | cons it rest ih =>
+    simp only [putBatches]
+    split
+    · simp [ih]
+    · simp [ih]
+
+theorem mk_spec_of_flatten (split : List Item → List (List Item)) (hflat : ∀ l, (split l).flatten = l) :
+    MkSpec (fun G items => (groupItems G items).flatMap fun g => (split g.2).map fun b => (g.1, b)) := by
+  constructor
+  · intro G items R b h it hit
+    simp only [groupItems, List.mem_flatMap, List.mem_map] at h
+    obtain ⟨g, ⟨R', hR', rfl⟩, b', hb', heq⟩ := h
+    simp only [Prod.mk.injEq] at heq
+    obtain ⟨rfl, rfl⟩ := heq
+    have : it ∈ (split (items.filter fun it => locate G it.1 == R')).flatten := List.mem_flatten.mpr ⟨_, hb', hit⟩
+    rw [hflat] at this
+    simp only [List.mem_filter, beq_iff_eq] at this
+    refine ⟨this.1, ?_⟩
+    rw [← this.2]; exact inRegion_locate G it.1
+  · intro G items it hit
+    have hR : locate G it.1 ∈ (items.map fun it => locate G it.1).eraseDups :=
+      List.mem_eraseDups.mpr (List.mem_map.mpr ⟨it, hit, rfl⟩)
+    have hin : it ∈ (split (items.filter fun it' => locate G it'.1 == locate G it.1)).flatten := by
+      rw [hflat]; simp [List.mem_filter, hit]
+    obtain ⟨b, hb, hib⟩ := List.mem_flatten.mp hin
+    refine ⟨locate G it.1, b, ?_, hib⟩
+    simp only [groupItems, List.mem_flatMap, List.mem_map]
+    exact ⟨(locate G it.1, items.filter fun it' => locate G it'.1 == locate G it.1), ⟨_, hR, rfl⟩, b, hb, rfl⟩
+
+theorem mkKeyBatches_spec : MkSpec mkKeyBatches :=
+  mk_spec_of_flatten (fun l => keyBatches Gen.rawBatchPairCount l []) (fun l => by simp [keyBatches_flatten])
+
+theorem mkPutBatches_spec : MkSpec mkPutBatches :=
+  mk_spec_of_flatten (fun l => putBatches Gen.rawBatchPutSize l [] 0) (fun l => by simp [putBatches_flatten])
+
 end CGV.RawKV
